@@ -28,3 +28,32 @@ CONSTANT_AFTER_MAKE_DATA = ("Data.cdof_tri_row", "Data.cdof_tri_col", "Data.ctol
 FLAG_STALE_OK = {
   "Data.ncollision": "with CONTACT/CONSTRAINT disabled collision() returns before zeroing the broadphase counter; its only reader on that path is the overflow detector of _next_time (ncollision > naconmax), which can only re-raise a sticky bit that the overflowing step already raised (inside C12's no-overflow proviso)",
 }
+
+# R-LIVE.7: (host function, field) pairs where today's tree fully (re)defines the field (zero_/fill_) on the host before
+# launches of the same function, on a compatible path, accumulate into it or write it only partially - the reference for
+# later changes (list generated from the traces and confirmed by reading). Keys are function + field, never lines.
+CLEARED_BEFORE_PARTIAL = {
+  ("collision_driver.collision", "Data.nacon"),
+  ("collision_driver.collision", "Data.ncollision"),
+  ("constraint.make_constraint", "Data.efc.Jqvel"),
+  ("derivative.deriv_smooth_vel", "temp:forward.implicit:qDeriv"),
+  ("derivative.deriv_smooth_vel", "temp:forward.implicit:qH_M"),
+  ("derivative.deriv_smooth_vel", "temp:inverse.discrete_acc:qDeriv"),
+  ("forward.forward", "Data.sensordata"),
+  ("forward.fwd_actuation", "Data.qfrc_actuator"),
+  ("island.compute_island_mapping", "Data.island_dofadr"),
+  ("island.flood_fill", "Data.tree_island"),
+  ("island.tree_edges", "temp:island.island:tree_tree"),
+  ("passive.passive", "Data.qfrc_adhesion"),
+  ("passive.passive", "Data.qfrc_gravcomp"),
+  ("sensor.sensor_acc", "temp:sensor.sensor_acc:sensor_contact_criteria"),
+  ("sensor.sensor_acc", "temp:sensor.sensor_acc:sensor_contact_matchid"),
+  ("sensor.sensor_acc", "temp:sensor.sensor_acc:sensor_contact_nmatch"),
+  ("smooth.crb", "Data.M"),
+  ("smooth.tendon", "Data.ten_J"),
+  ("smooth.tendon", "Data.ten_length"),
+  ("smooth.tendon", "Data.wrap_obj"),
+  ("smooth.tendon", "Data.wrap_xpos"),
+  ("solver._compact_gather", "Data.cJ"),
+  ("solver._solve", "ctx:search_unchanged"),
+}
